@@ -100,15 +100,26 @@ def check_determinism(pid, tier, seed):
         simple, uu, _ = slc.gen_saveload("C14", "quick", seed)
         simple = simple[:300 if tier == "quick" else 3000]
         r1 = slc.run_saveload(simple, False)
-        r2 = slc.run_saveload(simple, False)
+        # second process: other order, every history twice in a row (other worlds earlier in the same process)
+        order = list(range(len(simple)))
+        rng.shuffle(order)
+        doubled = []
+        for k in order:
+            doubled += [simple[k], simple[k]]
+        r2d = slc.run_saveload(doubled, False)
         nd = 0
-        for x, y in zip(r1, r2):
-            if x["impl"] != y["impl"]:
-                nd += 1
-                if not violations:
-                    violations.append(("save/load: the same history gave different outputs (serialised data) in two processes",
-                                       None, dict(history=slg.pretty(x["hist"]), run_a=str(x["impl"])[:3000], other=str(y["impl"])[:3000])))
-        sl_note = "%d save/load histories run in two processes, %d differing" % (len(r1), nd)
+        for pos, k in enumerate(order):
+            x = r1[k]
+            for y in (r2d[2 * pos], r2d[2 * pos + 1]):
+                if x["impl"] != y["impl"]:
+                    nd += 1
+                    if not violations:
+                        violations.append(("save/load: the same history gave different outputs (markers / serialised data) in "
+                                           "two runs (another process, after other worlds)", None,
+                                           dict(history=slg.pretty(x["hist"]), run_a=str(x["impl"])[:3000],
+                                                other=str(y["impl"])[:3000])))
+                    break
+        sl_note = "%d save/load histories run in two processes (second: shuffled, each twice in a row), %d differing" % (len(r1), nd)
     except Exception as e:      # the save/load domain is optional for this check
         sl_note = "save/load comparison unavailable: %r" % (e,)
 
